@@ -30,7 +30,23 @@ pub struct PkeCase {
     /// 0 none, 1 flip one bit at `pos`, 2 truncate to `pos`, 3 append a byte
     pub tamper: u8,
     pub pos: u16,
+    /// 0: the policy chosen by `hybrid_policy`; 1..=4: see `POLICIES`
+    #[serde(default)]
+    pub variant: u8,
 }
+
+/// (encryption policy, key that must open it, key that must not): mixed-flavour disjunctions
+/// opened through the hybridized branch only / through the classic branch only, broadcast, and a
+/// fully hybridized disjunction.
+const POLICIES: [(&str, usize, Option<usize>); 6] = [
+    ("SEC::LOW && DPT::FIN", 0, Some(1)),
+    ("SEC::TOP && DPT::FIN", 0, Some(1)),
+    ("SEC::TOP && DPT::HR || DPT::FIN", 2, Some(3)),
+    ("SEC::TOP && DPT::HR || DPT::FIN", 4, Some(3)),
+    ("*", 1, None),
+    ("SEC::TOP && DPT::HR || SEC::TOP && DPT::FIN", 2, Some(3)),
+];
+const KEY_POLICIES: [&str; 5] = ["SEC::TOP && DPT::FIN", "DPT::HR", "SEC::TOP && DPT::HR", "SEC::LOW && DPT::HR", "SEC::LOW && DPT::FIN"];
 
 fn len_strategy() -> impl Strategy<Value = u32> {
     prop_oneof![
@@ -49,8 +65,8 @@ fn shape() -> impl Strategy<Value = Shape> {
 }
 
 fn strategy() -> impl Strategy<Value = PkeCase> {
-    (len_strategy(), any::<u8>(), shape(), shape(), 0u8..5, any::<bool>(), 0u8..4, any::<u16>()).prop_map(
-        |(ptx_len, fill, metadata, aad_gen, aad_dec, hybrid_policy, tamper, pos)| PkeCase { ptx_len, fill, metadata, aad_gen, aad_dec, hybrid_policy, tamper, pos },
+    (len_strategy(), any::<u8>(), shape(), shape(), 0u8..5, any::<bool>(), 0u8..4, any::<u16>(), prop_oneof![2 => Just(0u8), 3 => 1u8..=4]).prop_map(
+        |(ptx_len, fill, metadata, aad_gen, aad_dec, hybrid_policy, tamper, pos, variant)| PkeCase { ptx_len, fill, metadata, aad_gen, aad_dec, hybrid_policy, tamper, pos, variant },
     )
 }
 
@@ -71,6 +87,8 @@ pub struct Fixture {
     pub mpk: MasterPublicKey,
     pub authorized: UserSecretKey,
     pub unauthorized: UserSecretKey,
+    /// one key per entry of `KEY_POLICIES`
+    pub keys: Vec<UserSecretKey>,
 }
 
 pub fn fixture() -> Result<Fixture, Fail> {
@@ -86,7 +104,11 @@ pub fn fixture() -> Result<Fixture, Fail> {
     let mpk = cc.update_msk(&mut msk).map_err(e)?;
     let authorized = cc.generate_user_secret_key(&mut msk, &AccessPolicy::parse("SEC::TOP && DPT::FIN").map_err(e)?).map_err(e)?;
     let unauthorized = cc.generate_user_secret_key(&mut msk, &AccessPolicy::parse("DPT::HR").map_err(e)?).map_err(e)?;
-    Ok(Fixture { cc, mpk, authorized, unauthorized })
+    let mut keys = vec![authorized.clone(), unauthorized.clone()];
+    for p in &KEY_POLICIES[2..] {
+        keys.push(cc.generate_user_secret_key(&mut msk, &AccessPolicy::parse(p).map_err(e)?).map_err(e)?);
+    }
+    Ok(Fixture { cc, mpk, authorized, unauthorized, keys })
 }
 
 fn same_aad(a: &Option<Vec<u8>>, b: &Option<Vec<u8>>) -> bool {
@@ -95,7 +117,14 @@ fn same_aad(a: &Option<Vec<u8>>, b: &Option<Vec<u8>>) -> bool {
 
 pub fn check_case(case: &PkeCase, col: &Collector) -> CheckResult {
     let fx = fixture()?;
-    let ap = AccessPolicy::parse(if case.hybrid_policy { "SEC::TOP && DPT::FIN" } else { "SEC::LOW && DPT::FIN" }).unwrap();
+    let (pol, ki, ku) = match case.variant {
+        0 => POLICIES[case.hybrid_policy as usize],
+        v => POLICIES[2 + (v as usize - 1) % 4],
+    };
+    col.class(&format!("policy:{pol} key:{}", KEY_POLICIES[ki]));
+    let ap = AccessPolicy::parse(pol).unwrap();
+    let authorized = &fx.keys[ki];
+    let unauthorized = ku.map(|k| &fx.keys[k]);
     let ptx = bytes(case.ptx_len, case.fill);
     let mut nontrivial = vec![];
     if BOUNDARY.contains(&(case.ptx_len as usize)) {
@@ -107,18 +136,20 @@ pub fn check_case(case: &PkeCase, col: &Collector) -> CheckResult {
     if body.len() != ptx.len() + 28 {
         return Err(Fail::new("pke-ciphertext-length", format!("plaintext {} bytes -> ciphertext {} bytes, expected +28 (nonce, tag)", ptx.len(), body.len())));
     }
-    match pke_decrypt(&fx.cc, &fx.authorized, &(enc.clone(), body.clone())) {
+    match pke_decrypt(&fx.cc, authorized, &(enc.clone(), body.clone())) {
         Ok(Some(p)) if p == ptx => {}
         Ok(Some(_)) => return Err(Fail::new("pke-wrong-plaintext", format!("len {}: authorized key decrypted to different data", ptx.len()))),
-        Ok(None) => return Err(Fail::new("pke-authorized-refused", format!("len {}: authorized key got None", ptx.len()))),
+        Ok(None) => return Err(Fail::new("pke-authorized-refused", format!("policy '{pol}', key '{}', len {}: authorized key got None", KEY_POLICIES[ki], ptx.len()))),
         Err(e) => return Err(Fail::new("pke-authorized-error", format!("len {}: authorized key got Err({})", ptx.len(), short_err(&e)))),
     }
-    match pke_decrypt(&fx.cc, &fx.unauthorized, &(enc.clone(), body.clone())) {
-        Ok(None) => {
-            nontrivial.push("unauthorized-key");
+    if let Some(unauthorized) = unauthorized {
+        match pke_decrypt(&fx.cc, unauthorized, &(enc.clone(), body.clone())) {
+            Ok(None) => {
+                nontrivial.push("unauthorized-key");
+            }
+            Ok(Some(_)) => return Err(Fail::new("pke-unauthorized-decrypts", format!("policy '{pol}': unauthorized key decrypted a PKE ciphertext"))),
+            Err(e) => return Err(Fail::new("pke-unauthorized-error", format!("unauthorized key must get 'not authorized' (None), got Err({})", short_err(&e)))),
         }
-        Ok(Some(_)) => return Err(Fail::new("pke-unauthorized-decrypts", "unauthorized key decrypted a PKE ciphertext".to_string())),
-        Err(e) => return Err(Fail::new("pke-unauthorized-error", format!("unauthorized key must get 'not authorized' (None), got Err({})", short_err(&e)))),
     }
     let tampered: Option<(Vec<u8>, &str)> = match case.tamper {
         1 => {
@@ -143,7 +174,7 @@ pub fn check_case(case: &PkeCase, col: &Collector) -> CheckResult {
     };
     if let Some((b, what)) = tampered {
         col.class(&format!("pke-tamper:{what}"));
-        match pke_decrypt(&fx.cc, &fx.authorized, &(enc.clone(), b.clone())) {
+        match pke_decrypt(&fx.cc, authorized, &(enc.clone(), b.clone())) {
             Err(_) => {}
             Ok(None) => return Err(Fail::new("pke-tampered-gives-none", format!("{what} of the PKE body: expected an error, got 'not authorized'"))),
             Ok(Some(_)) => return Err(Fail::new(format!("pke-tampered-accepted:{what}"), format!("{what} of a {}-byte PKE ciphertext (-> {} bytes) was accepted", body.len(), b.len()))),
@@ -153,7 +184,7 @@ pub fn check_case(case: &PkeCase, col: &Collector) -> CheckResult {
     if body.len() <= 64 {
         for n in 0..body.len() {
             col.class("pke-truncations");
-            match pke_decrypt(&fx.cc, &fx.authorized, &(enc.clone(), body[..n].to_vec())) {
+            match pke_decrypt(&fx.cc, authorized, &(enc.clone(), body[..n].to_vec())) {
                 Err(_) => {}
                 Ok(x) => return Err(Fail::new("pke-truncation-accepted", format!("PKE body of {} bytes truncated to {n}: got Ok({})", body.len(), if x.is_some() { "Some" } else { "None" }))),
             }
@@ -203,7 +234,7 @@ pub fn check_case(case: &PkeCase, col: &Collector) -> CheckResult {
     } else {
         header
     };
-    let r = header.decrypt(&fx.cc, &fx.authorized, aad_dec.as_deref());
+    let r = header.decrypt(&fx.cc, authorized, aad_dec.as_deref());
     if same {
         match r {
             Ok(Some(clear)) => {
@@ -216,7 +247,7 @@ pub fn check_case(case: &PkeCase, col: &Collector) -> CheckResult {
                     return Err(Fail::new("header-metadata-differs", format!("metadata {} bytes decrypted to {} different bytes", want.len(), got.len())));
                 }
             }
-            Ok(None) => return Err(Fail::new("header-authorized-refused", "authorized key got None".to_string())),
+            Ok(None) => return Err(Fail::new("header-authorized-refused", format!("policy '{pol}', key '{}': authorized key got None", KEY_POLICIES[ki]))),
             Err(e) => return Err(Fail::new("header-authorized-error", format!("metadata {:?} aad_gen {:?} aad_dec variant {}: Err({})", case.metadata, case.aad_gen, case.aad_dec, short_err(&e)))),
         }
     } else if md.is_some() {
@@ -231,10 +262,12 @@ pub fn check_case(case: &PkeCase, col: &Collector) -> CheckResult {
             col.class("aad-mismatch-with-absent-metadata:err");
         }
     }
-    match header.decrypt(&fx.cc, &fx.unauthorized, aad_dec.as_deref()) {
-        Ok(None) => {}
-        Ok(Some(_)) => return Err(Fail::new("header-unauthorized-decrypts", "unauthorized key decrypted a header".to_string())),
-        Err(e) => return Err(Fail::new("header-unauthorized-error", format!("unauthorized key must get None, got Err({})", short_err(&e)))),
+    if let Some(unauthorized) = unauthorized {
+        match header.decrypt(&fx.cc, unauthorized, aad_dec.as_deref()) {
+            Ok(None) => {}
+            Ok(Some(_)) => return Err(Fail::new("header-unauthorized-decrypts", format!("policy '{pol}': unauthorized key decrypted a header"))),
+            Err(e) => return Err(Fail::new("header-unauthorized-error", format!("unauthorized key must get None, got Err({})", short_err(&e)))),
+        }
     }
     // tamper with the encrypted metadata
     if let Some(em) = &header.encrypted_metadata {
@@ -262,7 +295,7 @@ pub fn check_case(case: &PkeCase, col: &Collector) -> CheckResult {
         for (b, what) in variants {
             col.class("header-metadata-tamper");
             let h2 = EncryptedHeader { encapsulation: header.encapsulation.clone(), encrypted_metadata: Some(b.clone()) };
-            match h2.decrypt(&fx.cc, &fx.authorized, aad_gen.as_deref()) {
+            match h2.decrypt(&fx.cc, authorized, aad_gen.as_deref()) {
                 Err(_) => {}
                 Ok(x) => return Err(Fail::new("header-tampered-metadata-accepted", format!("{what} of {}-byte encrypted metadata: decrypt returned Ok({})", em.len(), if x.is_some() { "Some" } else { "None" }))),
             }
@@ -281,14 +314,14 @@ pub fn check_case(case: &PkeCase, col: &Collector) -> CheckResult {
 
 pub fn run(ctx: &Ctx, col: &Collector) -> Meta {
     run_cases(&ctx.run_cfg(ctx.n(6000, 150_000), 1), "pke", strategy, col, check_case);
-    for c in ["c12:boundary-length", "c12:mismatching-aad", "c12:truncated-below-nonce", "c12:unauthorized-key", "aad:absent-vs-empty", "pke-truncations", "header-metadata-tamper", "header:via-serialization"] {
+    for c in ["c12:boundary-length", "c12:mismatching-aad", "c12:truncated-below-nonce", "c12:unauthorized-key", "aad:absent-vs-empty", "pke-truncations", "header-metadata-tamper", "header:via-serialization", "policy:SEC::TOP && DPT::HR || DPT::FIN key:SEC::TOP && DPT::HR", "policy:SEC::TOP && DPT::HR || DPT::FIN key:SEC::LOW && DPT::FIN", "policy:* key:DPT::HR"] {
         if col.class_count(c) == 0 && !col.stopped() {
             col.note(format!("generator unhealthy: class {c} empty"));
         }
     }
     Meta {
         level: "exploration",
-        rule: format!("generated (plaintext length, metadata shape, authentication data at generation and at decryption, tampering) tuples; lengths from the boundary set {BOUNDARY:?} and random up to 64 KiB; metadata / authentication data absent, empty or non-empty; authentication data at decryption equal, absent<->empty swapped, altered, truncated or absent; bit flips, truncations (every length for bodies <= 64 bytes), extensions; authorized and unauthorized keys; classic and hybridized policies. Oracle: exact round-trip for authorized keys, None for unauthorized, Err for differing authentication data or any tampering. Non-trivial = boundary length, mismatching authentication data, truncation below the nonce length, or unauthorized key; distinct by case"),
+        rule: format!("generated (plaintext length, metadata shape, authentication data at generation and at decryption, tampering) tuples; lengths from the boundary set {BOUNDARY:?} and random up to 64 KiB; metadata / authentication data absent, empty or non-empty; authentication data at decryption equal, absent<->empty swapped, altered, truncated or absent; bit flips, truncations (every length for bodies <= 64 bytes), extensions; authorized and unauthorized keys; classic, hybridized, broadcast, fully hybridized multi-target and mixed-flavour policies (the latter opened through the hybridized branch only and through the classic branch only). Oracle: exact round-trip for authorized keys, None for unauthorized, Err for differing authentication data or any tampering. Non-trivial = boundary length, mismatching authentication data, truncation below the nonce length, or unauthorized key; distinct by case"),
         exhaustive: false,
         assumptions: vec![
             "when the header carries no metadata nothing is symmetrically encrypted, so differing authentication data cannot be (and is not required to be) detected; counted, not judged".into(),
